@@ -301,7 +301,16 @@ def check(ctx):
     ctx.inst('R5', sc_, 'scale-touches-translation-only', wr == ['self._t_vec'], 'Pose.scale writes %s; rotations must stay unchanged' % wr)
     its = sorted(norm(l.iter) for l in walk_own(ss.node) if isinstance(l, ast.For))
     pb, pc = ss.params[1], ss.params[2]
-    every = its == ['bs_scaled.values()', 'cf_scaled'] or \
+    # the two-pass form: a dict comprehension over the base stations' items and a list comprehension over the Crazyflie poses
+    # make the copies (whatever the locals are called), one loop over each scales them
+    comp_src = {}
+    for s_ in ss.node.body:
+        if isinstance(s_, ast.Assign) and isinstance(s_.targets[0], ast.Name) and isinstance(s_.value, (ast.DictComp, ast.ListComp)) and len(s_.value.generators) == 1 \
+                and not s_.value.generators[0].ifs:
+            comp_src[s_.targets[0].id] = (type(s_.value).__name__, norm(s_.value.generators[0].iter))
+    by_src = {v_: k_ for k_, v_ in comp_src.items()}
+    dname, lname = by_src.get(('DictComp', '%s.items()' % pb)), by_src.get(('ListComp', pc))
+    every = (dname is not None and lname is not None and its == sorted(['%s.values()' % dname, lname])) or \
         (len(fused) == 2 and sorted(i_ for i_, _ in fused) == sorted(['%s.items()' % pb, pc]) and its == sorted(i_ for i_, _ in fused))
     ctx.inst('R5', ss, 'scales-every-pose', every, 'every base station and every Crazyflie pose is scaled; loops %s' % its)
     # the factor, followed from each public entry point through _scale_system (wherever the division is written): every .scale call
@@ -332,7 +341,8 @@ def check(ctx):
     calls_ = [c for c in walk_own(ss.node) if method_call(c, 'scale')]
     ctx.inst('R5', ss, 'single-factor', len({norm(a) for c in calls_ for a in c.args}) == 1 and len(calls_) == 2 and all(len(c.args) == 1 for c in calls_), 'every .scale call receives the same scale factor expression')
     rets = [s_.value for s_ in walk_own(ss.node) if isinstance(s_, ast.Return)]
-    ctx.inst('R5', ss, 'returns-factor', len(rets) == 1 and isinstance(rets[0], ast.Tuple) and [norm(e) for e in rets[0].elts[:2]] == ['bs_scaled', 'cf_scaled'] and
+    ctx.inst('R5', ss, 'returns-factor', len(rets) == 1 and isinstance(rets[0], ast.Tuple) and ([norm(e) for e in rets[0].elts[:2]] in (['bs_scaled', 'cf_scaled'], [dname, lname]) or
+                                                                                                 (len(fused) == 2 and sorted(norm(e) for e in rets[0].elts[:2]) == sorted(k_ for _, k_ in fused))) and
              bool(calls_) and norm(rets[0].elts[2]) == norm(calls_[0].args[0]), 'the factor that was applied is returned with the scaled poses')
     # ---- R6: ray / deck-plane intersection (what the sensor diagonal is measured with) -----------
     ip = S.method('calc_intersection_point')
